@@ -115,8 +115,17 @@ func NewCSC(indices, indptr []int, data interface{}, opts ...ConsOpt) *CS {
 
 // CSRFromCoord creates a new Compressed Sparse Row matrix given the coordinates. The data has to be a slice or it panics.
 func CSRFromCoord(shape Shape, xs, ys []int, data interface{}) *CS {
+	// the coordinate lists and the values are sorted together below, and the matrix keeps them: work on
+	// copies, the caller's slices stay as they are
+	xs = append([]int(nil), xs...)
+	ys = append([]int(nil), ys...)
+	if rv := reflect.ValueOf(data); rv.Kind() == reflect.Slice {
+		cp := reflect.MakeSlice(rv.Type(), rv.Len(), rv.Len())
+		reflect.Copy(cp, rv)
+		data = cp.Interface()
+	}
 	t := new(CS)
-	t.s = shape
+	t.s = shape.Clone()
 	t.o = NonContiguous
 	t.array = arrayFromSlice(data)
 	t.e = StdEng{}
@@ -148,8 +157,17 @@ func CSRFromCoord(shape Shape, xs, ys []int, data interface{}) *CS {
 
 // CSRFromCoord creates a new Compressed Sparse Column matrix given the coordinates. The data has to be a slice or it panics.
 func CSCFromCoord(shape Shape, xs, ys []int, data interface{}) *CS {
+	// the coordinate lists and the values are sorted together below, and the matrix keeps them: work on
+	// copies, the caller's slices stay as they are
+	xs = append([]int(nil), xs...)
+	ys = append([]int(nil), ys...)
+	if rv := reflect.ValueOf(data); rv.Kind() == reflect.Slice {
+		cp := reflect.MakeSlice(rv.Type(), rv.Len(), rv.Len())
+		reflect.Copy(cp, rv)
+		data = cp.Interface()
+	}
 	t := new(CS)
-	t.s = shape
+	t.s = shape.Clone()
 	t.o = MakeDataOrder(NonContiguous, ColMajor)
 	t.array = arrayFromSlice(data)
 	t.e = StdEng{}
